@@ -1174,4 +1174,128 @@ example : bcvDefaultK (3 : Rat) 8 20 none none = (2, 3) := by
   norm_num [Rsa.Gen.C05.defaultKRdmReal, Rsa.Gen.C05.defaultKPatternReal]
   decide
 
+/-! ## Round 4 — reuse sessions: no state survives a call
+
+  One data object, one list of models, the parameter arrays are handed to several successive evaluation
+  routines.  The model threads the content of the objects through the calls (`runSession`); what a call
+  leaves behind is governed by the regenerated count of in-place writes into the arguments
+  (`Rsa.Gen.C04.evalInputWrites`).  Since that count is 0, every call of every session is the stand-alone call
+  on the content of that moment — so every theorem of this file about one call (`fixed_entry`, `boot_entry`,
+  `cv_fold_entry`, `bcv_entry`, `dual_entry`, `random_entry`, `nan_samples_excluded*`, `dof_*`, …) holds for
+  every call of a session, whatever was evaluated on the objects before. -/
+
+section round4
+
+/-- the write counts read off the current source: no statement on the path of any public evaluation routine
+    (helpers, both noise ceilings, `input_check_model`, the models' `predict` / `predict_rdm` included) writes in
+    place into an object that may alias `data`, `models` or `theta`; `bootstrap_testset*` re-create the default
+    `index` descriptor in the caller's object in exactly the 5 known statements -/
+theorem input_write_leaves :
+    Rsa.Gen.C04.evalInputWrites = 0 ∧ Rsa.Gen.C04.testsetIndexDefaults = 5 := ⟨rfl, rfl⟩
+
+/-- as coded, a call leaves the content of the caller's objects exactly as it was — whatever an in-place
+    statement would have made of it (`dmg` arbitrary) -/
+theorem call_leaves_content_unchanged {σ : Type} (dmg : σ → σ) (s : σ) : callEffect dmg s = s := by
+  unfold callEffect callEffectW
+  rw [input_write_leaves.1]
+  simp
+
+/-- **sessions**: any list of steps (calls of any routines with any arguments, options, seeds, draws `κ`;
+    in-place edits of the user in between) run through the model with the explicit state gives, for every
+    call, the value of the stand-alone call on the content of that moment, and leaves that content
+    unchanged.  By induction over the step list. -/
+theorem session_calls_independent {κ σ ρ : Type} (dmg : κ → σ → σ) (result : κ → σ → ρ)
+    (steps : List (SessStep κ σ)) (s : σ) :
+    runSession (fun c => callEffect (dmg c)) result steps s = sessionSpec result steps s := by
+  induction steps generalizing s with
+  | nil => rfl
+  | cons st rest ih =>
+    cases st with
+    | call c => simp only [runSession, sessionSpec, call_leaves_content_unchanged, ih]
+    | edit f => simp only [runSession, sessionSpec, ih]
+
+/-- the content after a session is the original content with the user's edits alone -/
+theorem session_final_content {κ σ : Type} (dmg : κ → σ → σ) (steps : List (SessStep κ σ)) (s : σ) :
+    finalState (fun c => callEffect (dmg c)) steps s = applyEdits steps s := by
+  induction steps generalizing s with
+  | nil => rfl
+  | cons st rest ih =>
+    cases st with
+    | call c => simp only [finalState, applyEdits, call_leaves_content_unchanged, ih]
+    | edit f => simp only [finalState, applyEdits, ih]
+
+/-- the specification lists one entry per call … -/
+theorem sessionSpec_length {κ σ ρ : Type} (result : κ → σ → ρ) (steps : List (SessStep κ σ)) (s : σ) :
+    (sessionSpec result steps s).length = nCalls steps := by
+  induction steps generalizing s with
+  | nil => rfl
+  | cons st rest ih => cases st <;> simp [sessionSpec, nCalls, ih]
+
+/-- … and splits at a call: what comes before it only contributes its edits -/
+theorem sessionSpec_append_call {κ σ ρ : Type} (result : κ → σ → ρ) (pre post : List (SessStep κ σ))
+    (c : κ) (s : σ) :
+    sessionSpec result (pre ++ .call c :: post) s =
+      sessionSpec result pre s ++
+        (result c (applyEdits pre s), applyEdits pre s) :: sessionSpec result post (applyEdits pre s) := by
+  induction pre generalizing s with
+  | nil => rfl
+  | cons st rest ih => cases st <;> simp [sessionSpec, applyEdits, ih]
+
+/-- the call that follows the steps `pre` — e.g. an `eval_bootstrap_rdm(…, 'cosine')` after an
+    `eval_fixed(…, 'corr')` on the same objects — returns the stand-alone value on the original content with
+    the user's edits of `pre` only, the quantity the single-call theorems are about -/
+theorem session_call_at {κ σ ρ : Type} (dmg : κ → σ → σ) (result : κ → σ → ρ)
+    (pre post : List (SessStep κ σ)) (c : κ) (s : σ) :
+    (runSession (fun c => callEffect (dmg c)) result (pre ++ .call c :: post) s)[nCalls pre]? =
+      some (result c (applyEdits pre s), applyEdits pre s) := by
+  rw [session_calls_independent, sessionSpec_append_call]
+  have h := sessionSpec_length result pre s
+  rw [List.getElem?_append_right (by omega)]
+  simp [h]
+
+/-- a rerun: the same call (same arguments, same seed, same recorded draws) later in a session without an
+    edit in between returns the identical value -/
+theorem session_rerun_identical {κ σ ρ : Type} (dmg : κ → σ → σ) (result : κ → σ → ρ)
+    (calls : List κ) (c : κ) (s : σ) :
+    runSession (fun c => callEffect (dmg c)) result
+        (.call c :: calls.map .call ++ [.call c]) s =
+      (result c s, s) :: calls.map (fun k => (result k s, s)) ++ [(result c s, s)] := by
+  rw [session_calls_independent]
+  have h : ∀ (l : List κ) (tail : List (SessStep κ σ)),
+      sessionSpec result (l.map .call ++ tail) s
+        = l.map (fun k => (result k s, s)) ++ sessionSpec result tail s := by
+    intro l tail
+    induction l with
+    | nil => rfl
+    | cons k ks ih => simp [sessionSpec, ih]
+  simp only [sessionSpec, h, List.cons_append]
+
+/-- why the write count matters (the hypothesis discharged by `input_write_leaves` is not decoration): with a
+    single in-place statement that centres the rows, a later call that sums the entries sees other data -/
+theorem inplace_write_changes_later_call :
+    runSession (κ := Unit) (fun _ => callEffectW 1 (fun (v : List Int) => v.map (· - 2)))
+        (fun _ v => v.sum) [.call (), .call ()] [1, 2, 3]
+      ≠ sessionSpec (fun _ v => v.sum) [.call (), .call ()] [1, 2, 3] := by
+  decide
+
+end round4
+
+-- round 4: a session `eval_fixed(measure 1)` → user edit → `eval_fixed(measure 2)` → the first call again,
+-- on concrete integer data: every call is the stand-alone `evalFixed` on the content of its moment
+example :
+    let d0 : Data Int := { nCond := 3, vecs := [[1, 2, 3], [2, 2, 5]], rdesc := [0, 1], pdesc := [0, 1, 2] }
+    let d1 : Data Int := { d0 with vecs := [[1, 2, 3], [4, 0, 1]] }
+    let m1 : List Int → List Int → Int := fun x y => (List.zipWith (· * ·) x y).sum
+    let m2 : List Int → List Int → Int := fun x y => (List.zipWith (· - ·) x y).sum
+    let run : Bool → Data Int → List (List Int) := fun b d =>
+      (evalFixed (if b then m1 else m2) (fun _ => (0, 0)) d [[1, 0, 1]]).evals
+    (runSession (fun c => callEffect ((fun (_ : Bool) (d : Data Int) => { d with vecs := [] }) c)) run
+        [.call true, .edit (fun _ => d1), .call false, .call true] d0).map (·.1)
+      = [[[4, 7]], [[-4, -3]], [[4, 5]]] := by
+  intro d0 d1 m1 m2 run
+  rw [session_calls_independent]
+  decide
+
+example : nCalls ([.call 1, .edit id, .call 2] : List (SessStep Nat Nat)) = 2 := rfl
+
 end Rsa.Props.C04
